@@ -27,7 +27,8 @@ def sh(cmd, **kw):
 
 
 def run_demo(demo, src):
-    env = dict(os.environ, PYTHONPATH=src, PROV_SRC=src, PYTHONDONTWRITEBYTECODE="1")
+    # fixed hash seed: some demos compare reprs of sets and are otherwise flaky on any tree
+    env = dict(os.environ, PYTHONPATH=src, PROV_SRC=src, PYTHONDONTWRITEBYTECODE="1", PYTHONHASHSEED="0")
     p = sh([PY, demo], env=env, cwd=os.path.dirname(demo), timeout=600)
     return p.returncode, p.stdout.decode("utf-8", "replace")[-600:]
 
